@@ -157,4 +157,25 @@ def qchoose (sorter : List (Nat × Nat) → List (Nat × Nat)) (diff : Nat → N
     let ms := hbs.map (fun hb => match getMetric sorter diff q' hb with | some (_, m) => m | none => 0)
     some (q', metricChoose ms)
 
+/-- the operations of a quorum indexer's life, for history theorems -/
+inductive Op where
+  | process (hb : Nat → Seq) (creatorIdx : Nat) (self : Bool)
+  | medians
+  | metric (hb : Nat → Seq)
+
+def stepOp (sorter : List (Nat × Nat) → List (Nat × Nat)) (diff : Nat → Nat → Nat → Nat → Nat)
+    (q : QI) : Op → Option QI
+  | .process hb c self => some (processEvent q hb c self)
+  | .medians => (getMedians sorter q).map (·.1)
+  | .metric hb => (getMetric sorter diff q hb).map (·.1)
+
+/-- run a history; `none` = the real code would have panicked -/
+def run (sorter : List (Nat × Nat) → List (Nat × Nat)) (diff : Nat → Nat → Nat → Nat → Nat) :
+    QI → List Op → Option QI
+  | q, [] => some q
+  | q, op :: ops =>
+    match stepOp sorter diff q op with
+    | none => none
+    | some q' => run sorter diff q' ops
+
 end Model.Ancestor
